@@ -264,8 +264,10 @@ fn replay_encode(_args: &[String]) -> i32 {
     for id in pages {
         let cp = msi::CodePage::from_id(id).expect("page");
         for pat in 0..alphabet.len() {
-            for n in (1000usize..1040).chain(2040..2056) {
-                let s: String = (0..n).map(|i| if i % 7 == 3 { alphabet[(pat + i) % alphabet.len()] } else { alphabet[pat] }).collect();
+            // mix = 0: the same character throughout (long runs without an unmappable character fill
+            // the internal buffer); otherwise every mix-th character is another one
+            for (n, mix) in (1000usize..1040).chain(2040..2056).flat_map(|n| [(n, 0usize), (n, 7), (n, 1500)]) {
+                let s: String = (0..n).map(|i| if mix != 0 && i % mix == 3 { alphabet[(pat + i) % alphabet.len()] } else { alphabet[pat] }).collect();
                 let whole = std::panic::catch_unwind(|| cp.encode(&s));
                 let mut parts: Vec<u8> = Vec::new();
                 for c in s.chars() {
